@@ -32,6 +32,17 @@ PROP_MODULES = {
 }
 
 
+# modules whose contracts / lemmas / stand-ins are included WHOLESALE in a property's check because the property depends on the functions
+# they cover (the property statement is end-to-end; a change in a dependency breaks it too)
+RELATED = {
+    "C01": ["contracts.c03", "contracts.c03_bounded", "contracts.c04", "contracts.c05", "contracts.c18", "contracts.c18_bounded"],
+    "C06": ["contracts.c03"],
+    "C08": ["contracts.c13"],
+    "C10": ["contracts.c08", "contracts.c12", "contracts.c13"],
+    "C12": ["contracts.c13", "contracts.c17"],
+    "C17": ["contracts.c12"],
+}
+
 _search_cache = {}
 
 
@@ -60,13 +71,17 @@ def run_property(prop, tier="quick", seed=0, only=None, verbose=False):
     if not mods:
         print(f"no check registered for {prop}", file=sys.stderr)
         return 3
-    for m in mods:
+    rel = RELATED.get(prop, [])
+    for m in list(mods) + rel:
         importlib.import_module(m)
+
+    def sel(x):
+        return (prop in x.props or type(x).__module__ in rel) and (only is None or only in x.id)
     budget = 10.0 if tier == "quick" else 60.0
-    contracts = [c for c in api.REGISTRY["contracts"] if prop in c.props and (only is None or only in c.id)]
-    lemmas = [l for l in api.REGISTRY["lemmas"] if prop in l.props and (only is None or only in l.id)]
-    bounded = [b for b in api.REGISTRY["bounded"] if prop in b.props and (only is None or only in b.id)]
-    inventories = [b for b in api.REGISTRY["inventory"] if prop in b.props and (only is None or only in b.id)]
+    contracts = [c for c in api.REGISTRY["contracts"] if sel(c)]
+    lemmas = [l for l in api.REGISTRY["lemmas"] if sel(l)]
+    bounded = [b for b in api.REGISTRY["bounded"] if sel(b)]
+    inventories = [b for b in api.REGISTRY["inventory"] if sel(b)]
 
     records, outside, stats_all, functions = [], [], {}, set()
     tasks = []
@@ -168,7 +183,7 @@ def run_property(prop, tier="quick", seed=0, only=None, verbose=False):
             except Exception as e:
                 rp = None
         rec.replay = rp
-        match = [f for f in kf.get("findings", []) if f["property"] == prop and finding_matches(f, rec)]
+        match = [f for f in kf.get("findings", []) if finding_matches(f, rec)]
         if match and rp not in (None, "no-replay") and re.search(match[0].get("signature", ""), rp or ""):
             known_hits.append((match[0], rec))
             continue
@@ -181,7 +196,7 @@ def run_property(prop, tier="quick", seed=0, only=None, verbose=False):
         r["id"] = b.id
         bounded_out.append(r)
         for fl in r.get("failures", []):
-            m = [f for f in kf.get("findings", []) if f["property"] == prop and re.search(f["obligation"], b.id) and re.search(f.get("signature", ""), fl.get("text", ""))]
+            m = [f for f in kf.get("findings", []) if re.search(f["obligation"], b.id) and re.search(f.get("signature", ""), fl.get("text", ""))]
             if m:
                 known_hits.append((m[0], fl))
             else:
